@@ -148,6 +148,11 @@ def class_specs(seed):
     out.append(mk("id-encoding.no-control-entry", 2, 3, 2, [[0, 0, 1], [1, 1, 2], [0, 2, 0], [1, 0, 2], [0, 1, 0], [1, 2, 1]], True))
     # memory layout of the arrays the screen is built from
     out.append(mk("layout.strided-readonly-fortran-wide-U", 2, 3, 2, sbf, True, layout="strided-readonly"))
+    # units without data at BOTH ends of the index range (sample 0 and 3, treatment 0 and 4): each must still be drawn (prior) every sweep
+    ends = [[1, 1, 2], [2, 2, 3], [1, 3, 1], [2, 1, -1], [1, -1, 3], [2, 3, 2], [1, 2, -1]]
+    out.append(mk("units-without-data.first-and-last-index", 4, 5, 2, ends, True))
+    out.append(mk("units-without-data.first-and-last-index", 4, 5, 3, ends, False))
+    out.append(mk("units-without-data.first-and-last-index", 4, 5, 2, ends, True, reset_at=1))
     # item 12 instalments: add(part 1); step; add(part 2); step; step -- no reset: alpha, index tables, design rows must reflect ALL rows
     out.append(mk("instalments.add-step-add-step", 3, 3, 2, GRID_ROWS, False, n0=6, grow_at=1))
     out.append(mk("instalments.add-step-add-step", 2, 4, 3, sbf + fbs, True, n0=9, grow_at=1))
@@ -187,6 +192,9 @@ def class_nontrivial(name, spec):
         return all(r[0] != 0 and r[1] != 0 and r[2] != 0 for r in rows) and len(rows) > 0
     if name == "id-encoding.no-control-entry":
         return all(r[1] >= 0 and r[2] >= 0 for r in rows)
+    if name == "units-without-data.first-and-last-index":
+        cs, ts = set(r[0] for r in rows), set(r[1] for r in rows) | set(r[2] for r in rows)
+        return 0 not in cs and spec["nC"] - 1 not in cs and 0 not in ts and spec["nT"] - 1 not in ts and spec["sweeps"] >= 2
     if name.startswith("int-width."):
         return len(rows) in (129, 257) and all(r[1] != r[2] for r in rows)
     if name == "size.two-digit-ids":
@@ -455,11 +463,38 @@ class Proxy:
         return val if val.shape != () else float(val)
 
 
+class PassProxy(Proxy):
+    """records like `Proxy` but hands out what the REAL generator returns for exactly the call the code made, so the chain is the one
+    the un-instrumented sampler would run with that generator (used for the command-line entry point)"""
+
+    def __init__(self, real):
+        Proxy.__init__(self, 0, False, None)
+        self.real = real
+
+    def normal(self, loc=0.0, scale=1.0, size=None):
+        out = self.real.normal(loc, scale, size)
+        val = np.asarray(out, dtype=np.float64)
+        if self.in_mvn is not None:
+            self.in_mvn["z"] = np.array(val)
+            return out
+        stage, st = self.get_ctx()
+        self.records.append({"kind": "normal", "stage": stage, "loc": np.array(loc, dtype=np.float64),
+                             "scale": np.array(scale, dtype=np.float64), "size": size, "value": np.array(val), "state": st})
+        return out
+
+    def gamma(self, shape, scale=1.0, size=None):
+        out = self.real.gamma(shape, scale, size)
+        stage, st = self.get_ctx()
+        self.records.append({"kind": "gamma", "stage": stage, "shape": np.array(shape, dtype=np.float64),
+                             "scale": np.array(scale, dtype=np.float64), "size": size, "value": np.asarray(out, dtype=np.float64).copy(), "state": st})
+        return out
+
+
 class ForcedFailure(Exception):
     pass
 
 
-def run_sweep(model, proxy, fail_rng, fail_p, data, stages=None, module=None, snap=None):
+def run_sweep(model, proxy, fail_rng, fail_p, data, stages=None, module=None, snap=None, step=None):
     """one real `model.step()` with every stage wrapped; returns the recorded trace"""
     import batchie.fast_mvn as fm
     if module is None:
@@ -519,7 +554,7 @@ def run_sweep(model, proxy, fail_rng, fail_p, data, stages=None, module=None, sn
         with warnings.catch_warnings():
             warnings.simplefilter("ignore")
             try:
-                model.step()
+                (step or model.step)()
             except Exception as e:      # noqa: BLE001 -- the unchanged sampler never raises on these inputs
                 trace["raised"] = "%s: %s (in %s)" % (type(e).__name__, str(e)[:200], cur["stage"])
     finally:
@@ -557,7 +592,7 @@ STAGE_OF = {"W0": "_W0_step", "V0": "_V0_step", "W": "_W_step", "V2": "_V2_step"
 # (C18), whether inputs are left untouched, whether an unusual array layout is accepted, internal bookkeeping attributes; for the
 # interaction sampler of the extension also its transform and its row filter (C04)): a difference is reported as a broken TIE (expected behaviour = the documented/modelled one),
 # never as a counterexample with a replay.
-TIE_ONLY = {"C08:draw-kind", "C08:rng", "C08:data-mutated", "C08:input-mutated", "C08:add-observations-raised", "C08:instalments-state",
+TIE_ONLY = {"C08:cli-chain", "C08:draw-kind", "C08:rng", "C08:data-mutated", "C08:input-mutated", "C08:add-observations-raised", "C08:instalments-state",
             "C08I:draw-kind", "C08I:rng", "C08I:transform", "C08I:rows", "C08I:add-observations-raised"}
 
 
@@ -570,6 +605,30 @@ def report(res, what, case, observed, required, signature):
         res.disagree(signature + " (" + what + ")", case, observed, required)
     else:
         res.fail(what, case, observed, required, signature)
+
+
+def unvisited_units(trace, stage_names, stage, base, n_units, width):
+    """UNIT-LEVEL visit oracle, independent of which numpy primitive realises a draw: after `stage`, the stored parameter of every
+    unit 0..n_units-1 (`width` None: scalar per unit, else a row of that length) must be a value handed out by a draw made in that
+    stage (as stored: float32); the only exception is a unit whose multivariate draw failed (its block keeps its value), so the
+    number of unexplained units may not exceed the number of failed draws of the stage.  Returns the unexplained units beyond that."""
+    st = trace["snaps"][stage_names.index(stage)]
+    stored = np.asarray(st[base], dtype=np.float64)
+    handed, failed = [], 0
+    for r in trace["records"]:
+        if r.get("stage") != stage:
+            continue
+        if r["kind"] == "mvn" and (r.get("failed") or r.get("value") is None):
+            failed += 1
+            continue
+        v = f32(np.asarray(r["value"], dtype=np.float64))
+        handed += [x for x in (v.reshape(-1, width) if width is not None else v.reshape(-1, 1))]
+    missing = []
+    for u in range(n_units):
+        row = stored[u].reshape(-1)
+        if not any(h.shape == row.shape and np.array_equal(h, row) for h in handed):
+            missing.append(u)
+    return missing[failed:] if len(missing) > failed else []
 
 
 def far_rows(a, b, scale, tol):
@@ -636,6 +695,19 @@ def check_sweep(spec, rows, sweep_no, before, trace, data, y_ref, fail, counts):
         fail("alpha is not the mean of the transformed observations", st_alpha["alpha"], float(np.mean(y_ref)), "C08:alpha")
     if N == 0 and st_alpha["alpha"] != before["alpha"]:
         fail("alpha changed without observations", st_alpha["alpha"], before["alpha"], "C08:alpha")
+
+    # ---- every unit of every Gaussian block is visited (drawn: data branch or prior branch) in every sweep
+    for stage_, base_, n_, wd_ in (("_W0_step", "W0", nC, None), ("_V0_step", "V0", nT, None), ("_W_step", "W", nC, D),
+                                   ("_V2_step", "V2", nT, D), ("_V1_step", "V1", nT, D)):
+        miss = unvisited_units(trace, STAGES, stage_, base_, n_, wd_)
+        counts["units.visit_checked"] = counts.get("units.visit_checked", 0) + n_
+        if miss:
+            nodata = [u for u in miss if (int(np.sum(cl == u)) == 0 if base_ in ("W", "W0") else int(np.sum(d1 == u) + np.sum(d2 == u)) == 0)]
+            fail("block %s: units %s were not resampled in this sweep (their stored value is not a value drawn in %s)" % (base_, miss, stage_),
+                 {"units": miss, "units_without_data": nodata, "stored": np.asarray(trace["snaps"][STAGES.index(stage_)][base_])[miss[0]].tolist()},
+                 "every unit 0..%d receives one draw per sweep (full conditional; the prior N(0, 1/lambda) without data)" % (n_ - 1),
+                 "C08:unit-not-visited")
+            return None
 
     # ---- the draw sequence: kinds and shapes
     sites = site_list(nC, nT, D)
@@ -714,9 +786,13 @@ def check_sweep(spec, rows, sweep_no, before, trace, data, y_ref, fail, counts):
                         if 1e-5 * cond > 0.3:
                             # float32 Cholesky: relative error ~ cond * 6e-8; beyond this the comparison says nothing
                             counts["mvn.in_sweep.ill_conditioned_skipped"] = counts.get("mvn.in_sweep.ill_conditioned_skipped", 0) + 1
-                        elif counts.__setitem__("mvn.in_sweep.checked", counts.get("mvn.in_sweep.checked", 0) + 1) or not close(rec["value"], t1 + t2, float(np.max(np.abs(t1) + np.abs(t2))), tol=1e-5 * max(1.0, cond)):
-                            fail("sample_mvn_from_precision(Q, mu_part, z) is not U^-1 z + Q^-1 mu_part",
-                                 {"site": site, "result": rec["value"].tolist()}, {"expected": (t1 + t2).tolist(), "cond": float(cond)}, "C08:mvn")
+                        else:
+                            counts["mvn.in_sweep.checked"] = counts.get("mvn.in_sweep.checked", 0) + 1
+                            if D == 1 and abs(float(rec["Q"][0, 0]) - 1.0) > 0.05:
+                                counts["class.mvn.in_sweep.1x1-precision-not-1"] = counts.get("class.mvn.in_sweep.1x1-precision-not-1", 0) + 1
+                            if not close(rec["value"], t1 + t2, float(np.max(np.abs(t1) + np.abs(t2))), tol=1e-5 * max(1.0, cond)):
+                                fail("sample_mvn_from_precision(Q, mu_part, z) is not U^-1 z + Q^-1 mu_part",
+                                     {"site": site, "result": rec["value"].tolist()}, {"expected": (t1 + t2).tolist(), "cond": float(cond)}, "C08:mvn")
                     except np.linalg.LinAlgError:
                         pass
                 log.append((site, "mvn", args, scale, value))
@@ -986,7 +1062,7 @@ def run_case(spec, res, queue):
     from scipy.special import logit
     case = {"case_seed": spec["case_seed"], "stream": spec["stream"], "max_sweeps": spec["max_sweeps"], "nC": spec["nC"],
             "nT": spec["nT"], "D": spec["D"], "rows": spec["rows"], "sweeps": spec["sweeps"]}
-    for k in ("fixed", "grid", "n0", "grow_at", "reset_at", "klass", "class_index", "tperm", "sperm", "tmap_row_order", "layout", "parts", "swap_rng_at"):
+    for k in ("fixed", "grid", "n0", "grow_at", "reset_at", "klass", "class_index", "tperm", "sperm", "tmap_row_order", "layout", "parts", "swap_rng_at", "verbose"):
         if spec.get(k) is not None:
             case[k] = spec[k]
     rng = random.Random(spec["case_seed"] ^ 0x5EED)
@@ -1159,6 +1235,47 @@ def run_case(spec, res, queue):
         if screen_bytes(scr) != b0:
             fail("add_observations / step modified the screen it was given", "screen arrays changed", "unchanged", "C08:input-mutated")
     res.traces_validated += 1
+    return snap(w)
+
+
+def same_state(a, b):
+    return set(a) == set(b) and all(np.array_equal(np.asarray(a[k]), np.asarray(b[k]), equal_nan=True) for k in a)
+
+
+def run_case_v(spec, res, queue, verbose):
+    """item 19: the case under `verbose_logging()` (same oracles, same tie), then once more without it on a throw-away result:
+    with the same prescribed draws both runs must end in the same sampler state -- code that only runs when debug logging is on
+    must not consume a draw or touch a parameter"""
+    if not verbose:
+        return run_case(spec, res, queue)
+    vspec = dict(spec, verbose=True)
+    with common.verbose_logging():
+        fin_v = run_case(vspec, res, queue)
+    res.count("class.verbose-logging")
+    fin_p = run_case(dict(spec), common.Result(), [])
+    if (fin_v is None) != (fin_p is None) or (fin_v is not None and not same_state(fin_v, fin_p)):
+        diff = (["one of the two runs stopped at an oracle / tie, the other did not"] if fin_v is None or fin_p is None else
+                [k for k in fin_v if not np.array_equal(np.asarray(fin_v[k]), np.asarray(fin_p.get(k)), equal_nan=True)])
+        case = {k: vspec[k] for k in vspec if k in ("stream", "case_seed", "max_sweeps", "nC", "nT", "D", "rows", "sweeps", "fixed", "grid", "n0",
+                                                      "grow_at", "reset_at", "klass", "class_index", "tperm", "sperm", "tmap_row_order",
+                                                      "layout", "parts", "swap_rng_at", "verbose")}
+        case["verbose_compare"] = True
+        report(res, "with debug logging enabled the same prescribed draws end in a different sampler state (debug-only code consumed a "
+               "draw or touched a parameter)", case, {"fields_that_differ": diff}, "identical to the run without debug logging", "C08:verbose-differs")
+    return fin_v
+
+
+def irun_case_v(spec, res, iqueue, verbose):
+    if not verbose:
+        return irun_case_guarded(spec, res, iqueue)
+    with common.verbose_logging():
+        fin_v = irun_case_guarded(dict(spec, verbose=True), res, iqueue)
+    res.count("class.verbose-logging")
+    fin_p = irun_case_guarded(dict(spec), common.Result(), [])
+    if fin_v is not None and fin_p is not None and not same_state(fin_v, fin_p):
+        report(res, "interaction sampler: with debug logging enabled the same prescribed draws end in a different sampler state",
+               {k: spec.get(k) for k in ("stream", "case_seed", "nC", "nT", "D", "sweeps")}, "differs", "identical", "C08I:verbose-differs")
+    return fin_v
 
 
 def describe(spec, res):
@@ -1314,6 +1431,12 @@ def icheck_sweep(spec, trace, data, fail, res):
         keep = [0] + [i for i, nm in enumerate(trace["stages"]) if nm != "_reconstruct_Mu"]
         for key in ("stages", "mus", "snaps"):
             trace[key] = [trace[key][i] for i in keep]
+    for stage_, base_, n_ in (("_W_step", "W", nC), ("_V2_step", "V2", nT)):
+        miss = unvisited_units(trace, ISTAGES, stage_, base_, n_, D)
+        if miss:
+            fail("interaction sampler: block %s: units %s were not resampled in this sweep" % (base_, miss), {"units": miss},
+                 "every unit receives one draw per sweep", "C08I:unit-not-visited")
+            return None
     sites, recs = isite_list(nC, nT, D), trace["records"]
     if len(recs) != len(sites):
         fail("number of random draws in an interaction sweep", len(recs), len(sites), "C08I:draw-kind")
@@ -1353,6 +1476,20 @@ def icheck_sweep(spec, trace, data, fail, res):
                 if not close(rec["Q"], Q, qs) or not close(rec["b"], b, bscale):
                     fail(what, {"site": site, "Q": rec["Q"].tolist(), "mu_part": rec["b"].tolist()}, {"Q": Q.tolist(), "mu_part": b.tolist()}, sig)
                 value = None if rec["failed"] else trace["snaps"][ISTAGES.index(ISTAGE_OF[base])][base][ix].tolist()
+                if not rec["failed"] and rec["z"] is not None:
+                    try:
+                        L = np.linalg.cholesky(rec["Q"])
+                        t1, t2 = np.linalg.solve(L.T, rec["z"]), np.linalg.solve(rec["Q"], rec["b"])
+                        cond = np.linalg.cond(rec["Q"])
+                        if 1e-5 * cond <= 0.3:
+                            res.count("inter.mvn.in_sweep.checked")
+                            if D == 1 and abs(float(rec["Q"][0, 0]) - 1.0) > 0.05:
+                                res.count("class.inter.mvn.in_sweep.1x1-precision-not-1")
+                            if not close(rec["value"], t1 + t2, float(np.max(np.abs(t1) + np.abs(t2))), tol=1e-5 * max(1.0, cond)):
+                                fail("interaction sampler: sample_mvn_from_precision(Q, mu_part, z) is not U^-1 z + Q^-1 mu_part",
+                                     {"site": site, "result": rec["value"].tolist()}, {"expected": (t1 + t2).tolist()}, "C08I:mvn")
+                    except np.linalg.LinAlgError:
+                        pass
                 log.append((site, "mvn", rec["Q"].ravel().tolist() + rec["b"].tolist(), [qs] * (D * D) + bscale.tolist(), value))
         else:
             if rec["kind"] != "gamma" or rec["size"] is not None:
@@ -1417,7 +1554,7 @@ def irun_case(spec, res, iqueue):
     import batchie.models.sparse_combo_interaction as sci
     from scipy.special import logit
     case = {k: spec[k] for k in ("stream", "case_seed", "max_sweeps", "nC", "nT", "D", "rows", "sweeps")}
-    for k in ("n0", "iclass"):
+    for k in ("n0", "iclass", "perturb", "verbose"):
         if spec.get(k) is not None:
             case[k] = spec[k]
     rng = random.Random(spec["case_seed"] ^ 0x1A7E)
@@ -1511,13 +1648,14 @@ def irun_case(spec, res, iqueue):
             trace["muabs"][name] = run_max
         iqueue.append((isweep_line(spec, before, log, data), case, log, trace, after, pred, N, sweep_no))
     res.traces_validated += 1
+    return isnap(w)
 
 
 def irun_case_guarded(spec, res, iqueue):
     """nothing in the extension stream may affect the result of C08: a crash is an advisory too"""
     n0 = len(iqueue)
     try:
-        irun_case(spec, res, iqueue)
+        return irun_case(spec, res, iqueue)
     except Exception as e:      # noqa: BLE001
         del iqueue[n0:]
         res.advise("interaction sampler stream: %s: %s" % (type(e).__name__, str(e)[:200]),
@@ -1538,6 +1676,8 @@ def inter_class_specs(seed):
     out.append(mk("instalments", 2, 3, 2, sbf, False, n0=3))
     out.append(mk("instalments", 2, 3, 1, sbf, True, n0=5))
     out.append(mk("row-order", 2, 3, 3, sbf, True))
+    out.append(mk("units-without-data.first-and-last-index", 4, 5, 2, [[1, 1, 2], [2, 2, 3], [1, 3, 1], [2, 3, 2], [1, 2, 3]], True))
+    out.append(mk("units-without-data.first-and-last-index", 4, 5, 2, [[1, 1, 2], [2, 2, 3], [1, 3, 1], [2, 3, 2], [1, 2, 3]], False))
     wide = [[n % 2, n % 3, (n % 3 + 1 + (n // 3) % 2) % 3] for n in range(129)]
     sp = mk("int-width.n_obs=129", 2, 3, 2, wide, True)
     sp["sweeps"] = 1
@@ -1554,19 +1694,290 @@ def inter_stream(ctx, res, iqueue):
         res.count("inter.D=%d" % spec["D"])
         res.count("inter.cases.perturbed", int(spec["perturb"]))
         res.count("inter.cases.screen_with_non_combination_rows", int(bool(spec["extra"])))
-        irun_case_guarded(spec, res, iqueue)
+        irun_case_v(spec, res, iqueue, t % 8 == 3)
     for t in range(ctx.scale(3, 20, 8)):
         irun_case_guarded(igen_spec(rng.randrange(2 ** 48), 2, selfpair=True), res, iqueue)
     # hardening classes on the interaction sampler, deterministic shapes
     crng = random.Random(ctx.subrng("inter-class").randrange(2 ** 48))
     for ci, spec in enumerate(inter_class_specs(crng.randrange(2 ** 48))):
-        irun_case_guarded(spec, res, iqueue)
+        irun_case_v(spec, res, iqueue, ci % 2 == 1)
+
+
+# ------------------------------------------------------------------------------------------------
+# item 18: the real entry point -- batchie.cli.train_model.main() (argv + files)
+# ------------------------------------------------------------------------------------------------
+
+def cli_specs(seed):
+    """deterministic shapes: seed 0 / chain 0, ids 0, unobserved rows in the file, permuted mapping ids, D = 1 and 2, both samplers"""
+    rng = random.Random(seed)
+    rows = [[0, 0, 1], [1, 1, 2], [0, 2, 0], [1, 0, 2], [0, 1, 0], [1, 2, 1], [0, 0, -1], [1, -1, 1], [0, 1, 2]]
+    combo = [r for r in rows if r[1] >= 0 and r[2] >= 0]
+    out = []
+
+    def mk(sampler, D, rows_, unobs, **kw):
+        sp = {"sampler": sampler, "nC": 3, "nT": 4, "D": D, "rows": [list(r) for r in rows_],
+              "obs": [round(0.03 + 0.94 * rng.random(), 6) for _ in rows_], "unobserved": [list(r) for r in unobs],
+              "seed": 0, "n_chains": 1, "chain_index": 0, "n_burnin": 1, "thin": 1, "n_samples": 2, "verbose": False}
+        sp.update(kw)
+        return sp
+    out.append(mk("SparseDrugCombo", 1, rows, [[2, 3, 0], [0, 1, 3]]))
+    out.append(mk("SparseDrugCombo", 2, rows, [[1, 0, 1]], seed=7, n_chains=3, chain_index=2, n_burnin=2, thin=2, tperm=[2, 0, 3, 1], verbose=True))
+    out.append(mk("SparseDrugCombo", 3, rows[:5], [], seed=0, n_chains=2, chain_index=0, n_burnin=0))
+    out.append(mk("SparseDrugComboInteraction", 1, combo + [[0, 0, -1]], [[2, 3, 0]]))
+    out.append(mk("SparseDrugComboInteraction", 2, combo, [[1, 0, 1]], seed=5, n_chains=2, chain_index=1, verbose=True))
+    return out
+
+
+def cli_case(ctx, res, spec, queue, iqueue):
+    """write the screen (observed rows + unobserved rows, interleaved), run train_model.main() on it, and judge (a) what the sampler
+    received, (b) every sweep it ran (same oracles and model tie as the library streams, draws recorded on the real generator),
+    (c) the thetas it wrote, (d) tie only: the chain equals the library chain for the generator the CLI documents"""
+    import os
+    import shutil
+    import sys
+    import tempfile
+    import logging
+    from scipy.special import logit
+    import batchie.cli.train_model as tm
+    from batchie.core import ThetaHolder
+    from batchie.data import Screen, ExperimentSpace
+    inter = spec["sampler"] == "SparseDrugComboInteraction"
+    if inter:
+        import batchie.models.sparse_combo_interaction as mod
+        cls, stages, snapf, muf, sig = mod.SparseDrugComboInteraction, ISTAGES, isnap, imu, "C08I"
+    else:
+        import batchie.models.sparse_combo as mod
+        cls, stages, snapf, muf, sig = mod.SparseDrugCombo, STAGES, snap, mu_scratch, "C08"
+    case = {"kind": "cli", "spec": spec, "verbose": bool(spec.get("verbose"))}
+    res.count("class.entry-point.train_model." + spec["sampler"])
+
+    def fail(what, observed, required, signature):
+        report(res, what, case, observed, required, signature)
+
+    # ---- the file: unobserved rows interleaved with the observed ones
+    rows, obs = spec["rows"], spec["obs"]
+    allrows, allobs, mask = [], [], []
+    un = list(spec["unobserved"])
+    for i_, (r, o) in enumerate(zip(rows, obs)):
+        if un and i_ % 2 == 1:
+            allrows.append(un.pop(0)); allobs.append(0.0); mask.append(False)
+        allrows.append(r); allobs.append(o); mask.append(True)
+    for r in un:
+        allrows.append(r); allobs.append(0.0); mask.append(False)
+    full = build_screen(spec, allrows, allobs)
+    tmap, smap = maps_of(spec)
+    full = Screen(treatment_names=full.treatment_names, treatment_doses=full.treatment_doses, sample_names=full.sample_names,
+                  plate_names=np.array(["p" if m_ else "u" for m_ in mask], dtype=str), observations=np.array(allobs, dtype=float),
+                  observation_mask=np.array(mask, dtype=bool),
+                  treatment_mapping=tmap, sample_mapping=smap)
+    train_rows = [r for r in rows if (r[1] >= 0 and r[2] >= 0)] if inter else rows
+    train_obs = [o for r, o in zip(rows, obs) if (r[1] >= 0 and r[2] >= 0)] if inter else obs
+    train_screen = build_screen(spec, train_rows, train_obs)
+    N = len(train_rows)
+    cl = np.array([r[0] for r in train_rows], dtype=int)
+    d1 = np.array([r[1] for r in train_rows], dtype=int)
+    d2 = np.array([r[2] for r in train_rows], dtype=int)
+    y_ref = (logit(np.array(train_obs, dtype=np.float64)) if inter else logit(np.clip(np.array(train_obs, dtype=np.float64), 0.01, 0.99))) if N else np.zeros(0)
+    cspec = {"stream": "cli", "nC": spec["nC"], "nT": spec["nT"], "D": spec["D"], "rows": train_rows}
+    tmp = tempfile.mkdtemp(prefix="c08cli")
+    steps = []          # per step: (before, trace, after)
+    received = {}
+    orig_step = cls.__dict__["step"]
+
+    def step_wrapper(self):
+        w = self.wrapped_model
+        if not received:
+            real = w.rng
+            received.update(rng=real, rng_state=(real.bit_generator.state if hasattr(real, "bit_generator") else None), D=int(w.D),
+                            tuples=([float(v) for v in w.y], [int(v) for v in w.cline], [int(v) for v in w.dd1], [int(v) for v in w.dd2]),
+                            proxy=PassProxy(real), model=self)
+            self.set_rng(received["proxy"])
+        before = snapf(w)
+        data = (np.array(w.y, dtype=np.float64), cl, d1, d2)
+        trace = run_sweep(self, received["proxy"], random.Random(0), 0.0, data, stages=stages, module=mod, snap=snapf,
+                          step=lambda: orig_step(self))
+        steps.append((before, trace, snapf(w)))
+
+    argv = ["train_model", "--data", os.path.join(tmp, "screen.h5"), "--model", spec["sampler"], "--model-param",
+            "n_embedding_dimensions=%d" % spec["D"], "--output", os.path.join(tmp, "thetas.h5"), "--n-samples", str(spec["n_samples"]),
+            "--n-burnin", str(spec["n_burnin"]), "--thin", str(spec["thin"]), "--n-chains", str(spec["n_chains"]),
+            "--chain-index", str(spec["chain_index"]), "--seed", str(spec["seed"])] + (["--verbose"] if spec.get("verbose") else [])
+    lg = logging.getLogger("batchie")
+    saved_argv, saved_handlers, saved_level = sys.argv, list(lg.handlers), lg.level
+    raised = None
+    try:
+        full.save_h5(os.path.join(tmp, "screen.h5"))
+        cls.step = step_wrapper
+        sys.argv = argv
+        import io
+        saved_err, sys.stderr = sys.stderr, io.StringIO()      # configure_logging attaches a stream handler to stderr: keep it quiet
+        try:
+            tm.main()
+        except BaseException as e:      # noqa: BLE001 -- SystemExit from argparse included
+            raised = "%s: %s" % (type(e).__name__, str(e)[:200])
+        finally:
+            sys.stderr = saved_err
+        holder = ThetaHolder.load_h5(os.path.join(tmp, "thetas.h5")) if raised is None and os.path.exists(os.path.join(tmp, "thetas.h5")) else None
+    finally:
+        cls.step = orig_step
+        sys.argv = saved_argv
+        for h in list(lg.handlers):
+            if h not in saved_handlers:
+                lg.removeHandler(h)
+        lg.setLevel(saved_level)
+        shutil.rmtree(tmp, ignore_errors=True)
+    if raised is not None:
+        fail("train_model.main() raised on a valid screen", raised, "completes", sig + ":step-raised")
+        return
+    if spec.get("verbose"):
+        res.count("class.verbose-logging")
+    # ---- (a) what the sampler received
+    if not received:
+        fail("train_model.main() never stepped the sampler", 0, "steps", sig + ":step-raised")
+        return
+    got_rows = [list(t) for t in zip(received["tuples"][1], received["tuples"][2], received["tuples"][3])]
+    yy = np.array(received["tuples"][0], dtype=np.float64)
+    if got_rows != [list(map(int, r)) for r in train_rows] or len(yy) != N or (N and not close(yy, y_ref, np.abs(y_ref) + 1.0)):
+        fail("the sampler started by train_model.main() was not given the observed experiments of the file (ids / order / transformed values)",
+             {"rows": got_rows[:12], "y": yy.tolist()[:6]}, {"rows": train_rows[:12], "y": y_ref.tolist()[:6]}, sig + ":rows")
+        return
+    # ---- (b) every sweep
+    y = yy
+    data = (y, cl, d1, d2)
+    for k, (before, trace, after) in enumerate(steps):
+        res.evaluations += 1
+        counts = {}
+        if inter:
+            log = icheck_sweep(cspec, trace, data, fail, res)
+        else:
+            log = check_sweep(cspec, train_rows, k, before, trace, data, y_ref, fail, counts)
+        for k_, v_ in counts.items():
+            res.count(k_, v_)
+        if log is None:
+            return
+        run_max = (np.abs(y) if N else 0)
+        trace["muabs"] = {}
+        for name, st in zip(trace["stages"], trace["snaps"]):
+            run_max = np.maximum(run_max, muf(st, cl, d1, d2, absolute=True) + (np.abs(y) if N else 0))
+            trace["muabs"][name] = run_max
+        if inter:
+            iqueue.append((isweep_line(cspec, before, log, data), case, log, trace, after, np.array(after["Mu"]), N, k))
+        else:
+            queue.append((sweep_line(cspec, before, log, data), case, log, trace, after, np.array(after["Mu"]), N, k))
+    # ---- (c) the thetas written: each reproduces the fitted values and the precision of a step, in order
+    if holder is None or holder.n_thetas != spec["n_samples"]:
+        fail("train_model.main() did not write the requested number of posterior samples", None if holder is None else int(holder.n_thetas),
+             spec["n_samples"], sig + ":export")
+        return
+    pos = 0
+    for i_ in range(holder.n_thetas):
+        th = holder.get_theta(i_)
+        pred = np.asarray(th.predict_conditional_mean(train_screen), dtype=np.float64) if N else np.zeros(0)
+        found = None
+        for k in range(pos, len(steps)):
+            after = steps[k][2]
+            sc_ = np.maximum(muf(after, cl, d1, d2, absolute=True), muf(steps[k][0], cl, d1, d2, absolute=True)) + 1e-3 if N else 0
+            if (not N or close(pred, after["Mu"], sc_, tol=1e-4)) and close(1.0 / float(th.precision), 1.0 / after["prec"], 1.0 / after["prec"], tol=1e-6):
+                found = k
+                break
+        if found is None:
+            fail("a posterior sample written by train_model.main() reproduces the fitted values / noise precision of no step of the chain",
+                 {"sample": i_, "predicted": pred.tolist()[:8]}, "Mu and 1/prec after one of the steps", sig + ":export")
+            return
+        pos = found + 1
+    # ---- (d) tie only: the same chain as the library path with the documented generator
+    try:
+        seeds = np.random.SeedSequence(spec["seed"]).spawn(spec["n_chains"])
+        lib_rng = np.random.default_rng(seeds[spec["chain_index"]])
+        lib = cls(experiment_space=ExperimentSpace.from_screen(full), n_embedding_dimensions=spec["D"])
+        sub = full.subset_observed()
+        if sub is not None:
+            lib.add_observations(sub)
+        lib.reset_model()
+        lib.set_rng(lib_rng)
+        with warnings.catch_warnings():
+            warnings.simplefilter("ignore")
+            for _ in steps:
+                lib.step()
+        same = same_state(snapf(lib.wrapped_model), steps[-1][2]) and received["D"] == spec["D"]
+    except Exception as e:      # noqa: BLE001
+        same = "library path raised %s" % type(e).__name__
+    if same is not True:
+        fail("the chain run by train_model.main() is not the chain of the library path for default_rng(SeedSequence(seed).spawn(n_chains)[chain_index])",
+             str(same), "bit-identical final sampler state", sig + ":cli-chain")
+
+
+def cli_stream(ctx, res, queue, iqueue):
+    for spec in cli_specs(ctx.subrng("cli").randrange(2 ** 48)):
+        if spec["sampler"] == "SparseDrugComboInteraction":
+            try:
+                cli_case(ctx, res, spec, queue, iqueue)
+            except Exception as e:      # noqa: BLE001 -- extension: never affects the result
+                res.advise("interaction sampler, train_model entry point: %s: %s" % (type(e).__name__, str(e)[:200]), {"kind": "cli", "spec": spec}, None, None, "C08I:crash")
+        elif spec.get("verbose"):
+            with common.verbose_logging():
+                cli_case(ctx, res, spec, queue, iqueue)
+        else:
+            cli_case(ctx, res, spec, queue, iqueue)
+
+
+def mvn_eval(case):
+    """one call of sample_mvn_from_precision with a prescribed z; returns (got, want, magnitude, cond) -- `form` is `mu_part` (the
+    samplers' call form: N(Q^-1 b, Q^-1)) or `mu` (N(mu, Q^-1))"""
+    import batchie.fast_mvn as fm
+    Q, b, z = np.array(case["Q"], dtype=np.float64), np.array(case["b"], dtype=np.float64), np.array(case["z"], dtype=np.float64)
+
+    class Z:
+        def normal(self, loc=0.0, scale=1.0, size=None):
+            return z.copy()
+    kw = {"mu_part": b.copy()} if case.get("form", "mu_part") == "mu_part" else {"mu": b.copy()}
+    got = np.asarray(fm.sample_mvn_from_precision(Q.copy(), rng=Z(), **kw), dtype=np.float64)
+    L = np.linalg.cholesky(Q)
+    t1 = np.linalg.solve(L.T, z)
+    t2 = np.linalg.solve(Q, b) if "mu_part" in kw else b
+    return got, t1 + t2, float(np.max(np.abs(t1) + np.abs(t2))), float(np.linalg.cond(Q))
+
+
+def mvn_check(res, case, lines, cbs):
+    got, want, mag, cond = mvn_eval(case)
+    D = len(case["z"])
+    res.evaluations += 1
+    res.count("mvn.cases")
+    if got.shape != (D,) or not close(got, want, mag, tol=1e-11 * cond):
+        what = ("sample_mvn_from_precision(Q, mu_part, z) is not U^-1 z + Q^-1 mu_part" if case.get("form", "mu_part") == "mu_part"
+                else "sample_mvn_from_precision(Q, mu=m, z) is not U^-1 z + m")
+        res.fail(what, case, got.tolist(), want.tolist(), "C08:mvn")
+    if lines is not None:
+        Q, b = np.array(case["Q"]), np.array(case["b"])
+        bb = b if case.get("form", "mu_part") == "mu_part" else Q @ b          # the model has the mu_part form: Q^-1 (Q m) = m
+        lines.append("c08mvn %d %s" % (D, ftok(list(Q.ravel()) + list(bb) + list(case["z"]))))
+        cbs.append((case, got, mag, 1e-10 * cond))
+    return got
 
 
 def mvn_stream(ctx, res, lines, cbs):
-    """sample_mvn_from_precision on its own with a recorded z (float64, well conditioned)"""
-    import batchie.fast_mvn as fm
+    """sample_mvn_from_precision on its own with a recorded z (float64, well conditioned); every run: 1x1 precision matrices whose
+    entry is not 1 (so that z/sqrt(q) differs from z/q and from z) and 2x2 ones, in BOTH call forms (mu_part= and mu=)"""
     rng = ctx.subrng("mvn")
+    fixed = []
+    for q in (0.04, 0.25, 4.0, 9.0, 2500.0):
+        for form in ("mu_part", "mu"):
+            g = np.random.default_rng(rng.randrange(2 ** 32))
+            fixed.append({"kind": "mvn", "form": form, "Q": [[q]], "b": [float(g.standard_normal() * 3)], "z": [float(g.standard_normal())]})
+            res.count("class.mvn.1x1-precision-not-1.%s" % form)
+    for form in ("mu_part", "mu"):
+        g = np.random.default_rng(rng.randrange(2 ** 32))
+        fixed.append({"kind": "mvn", "form": form, "Q": [[4.0, 1.5], [1.5, 9.0]], "b": g.standard_normal(2).tolist(), "z": g.standard_normal(2).tolist()})
+    for t, case in enumerate(fixed):
+        if t % 3 == 0:
+            with common.verbose_logging():
+                got_v = mvn_check(res, dict(case, verbose=True), lines, cbs)
+            res.count("class.verbose-logging")
+            got_p, _, _, _ = mvn_eval(case)
+            if not np.array_equal(got_v, got_p):
+                res.fail("sample_mvn_from_precision gives another result with debug logging enabled", dict(case, verbose=True), got_v.tolist(), got_p.tolist(), "C08:mvn")
+        else:
+            mvn_check(res, case, lines, cbs)
     for t in range(ctx.scale(40, 2000)):
         g = np.random.default_rng(rng.randrange(2 ** 32))
         D = rng.randint(1, 6)
@@ -1574,23 +1985,7 @@ def mvn_stream(ctx, res, lines, cbs):
         Q = A.T @ A * 10.0 ** g.uniform(-1, 2) + np.diag(10.0 ** g.uniform(-1, 1, size=D))
         b = g.standard_normal(D) * 10.0 ** g.uniform(-1, 2)
         z = g.standard_normal(D)
-
-        class Z:
-            def normal(self, loc=0.0, scale=1.0, size=None):
-                return z.copy()
-        got = np.asarray(fm.sample_mvn_from_precision(Q.copy(), mu_part=b.copy(), rng=Z()), dtype=np.float64)
-        L = np.linalg.cholesky(Q)
-        t1, t2 = np.linalg.solve(L.T, z), np.linalg.solve(Q, b)
-        want = t1 + t2
-        mag = float(np.max(np.abs(t1) + np.abs(t2)))
-        cond = np.linalg.cond(Q)
-        case = {"kind": "mvn", "Q": Q.tolist(), "b": b.tolist(), "z": z.tolist()}
-        res.evaluations += 1
-        res.count("mvn.cases")
-        if got.shape != (D,) or not close(got, want, mag, tol=1e-11 * cond):
-            res.fail("sample_mvn_from_precision(Q, mu_part, z) is not U^-1 z + Q^-1 mu_part", case, got.tolist(), want.tolist(), "C08:mvn")
-        lines.append("c08mvn %d %s" % (D, ftok(list(Q.ravel()) + list(b) + list(z))))
-        cbs.append((case, got, mag, 1e-10 * cond))
+        mvn_check(res, {"kind": "mvn", "form": "mu_part" if t % 4 else "mu", "Q": Q.tolist(), "b": b.tolist(), "z": z.tolist()}, lines, cbs)
 
 
 def run(ctx, res):
@@ -1602,7 +1997,7 @@ def run(ctx, res):
     for t in range(n_main):
         spec = gen_spec(rng.randrange(2 ** 48), "main", max_sweeps)
         describe(spec, res)
-        run_case(spec, res, queue)
+        run_case_v(spec, res, queue, t % 8 == 3)
         if t < 4:
             res.sample({k: spec[k] for k in ("stream", "case_seed", "nC", "nT", "D", "rows", "sweeps")})
     # grid: every embedding size, fresh and randomised (pairwise distinct hyper-parameters), three consecutive sweeps
@@ -1613,7 +2008,7 @@ def run(ctx, res):
                 spec = grid_spec(rng.randrange(2 ** 48), D, perturbed)
                 res.count("grid.D=%d.%s" % (D, "randomised" if perturbed else "fresh"))
                 describe(spec, res)
-                run_case(spec, res, queue)
+                run_case_v(spec, res, queue, D in (1, 4) and perturbed and rep_ == 0)
     # the hardening classes (HARDENING_CHECKLIST.md): deterministic shapes, in every run
     cls_seed = ctx.subrng("class").randrange(2 ** 48)
     for ci, (name, spec) in enumerate(class_specs(cls_seed)):
@@ -1622,14 +2017,14 @@ def run(ctx, res):
             raise RuntimeError("harness: class case %s lacks its feature" % name)
         n_before = res.traces_validated
         describe(spec, res)
-        run_case(spec, res, queue)
+        run_case_v(spec, res, queue, ci % 4 == 1)          # boundary cases under debug logging as well
         res.count("class." + name, int(res.traces_validated > n_before))
     # histories: rows added between sweeps, reset_model() between sweeps
     rng = ctx.subrng("history")
     for t in range(ctx.scale(24, 300, 80)):
         spec = history_spec(rng.randrange(2 ** 48), max_sweeps)
         describe(spec, res)
-        run_case(spec, res, queue)
+        run_case_v(spec, res, queue, t % 6 == 2)
     rng = ctx.subrng("selfpair")
     n_known = len(res.oracle_failures)
     res.count("selfpair.cases")
@@ -1642,6 +2037,7 @@ def run(ctx, res):
         run_case(spec, res, queue)
     iqueue = []
     inter_stream(ctx, res, iqueue)
+    cli_stream(ctx, res, queue, iqueue)
     mlines, mcbs = [], []
     mvn_stream(ctx, res, mlines, mcbs)
     if ctx.driver is not None:
@@ -1663,23 +2059,30 @@ def run(ctx, res):
 
 
 def replay(ctx, case, res):
-    if case.get("kind") == "mvn":
-        import batchie.fast_mvn as fm
-        Q, b, z = np.array(case["Q"]), np.array(case["b"]), np.array(case["z"])
+    if case.get("verbose") and not case.get("verbose_compare"):
+        with common.verbose_logging():
+            return _replay(ctx, case, res)
+    return _replay(ctx, case, res)
 
-        class Z:
-            def normal(self, loc=0.0, scale=1.0, size=None):
-                return z.copy()
-        got = np.asarray(fm.sample_mvn_from_precision(Q.copy(), mu_part=b.copy(), rng=Z()), dtype=np.float64)
-        t1, t2 = np.linalg.solve(np.linalg.cholesky(Q).T, z), np.linalg.solve(Q, b)
-        want = t1 + t2
-        if not close(got, want, float(np.max(np.abs(t1) + np.abs(t2))), tol=1e-11 * np.linalg.cond(Q)):
-            res.fail("sample_mvn_from_precision(Q, mu_part, z) is not U^-1 z + Q^-1 mu_part", case, got.tolist(), want.tolist(), "C08:mvn")
+
+def _replay(ctx, case, res):
+    if case.get("kind") == "mvn":
+        mvn_check(res, case, None, None)
+        return
+    if case.get("kind") == "cli":
+        q_, iq_ = [], []
+        cli_case(ctx, res, case["spec"], q_, iq_)
+        if ctx.driver is not None:
+            for q in q_:
+                compare_with_model(res, q[1], ctx.driver.ask([q[0]])[0], *q[2:])
+            for q in iq_:
+                compare_with_model(res, q[1], ctx.driver.ask([q[0]])[0], *q[2:], stages=ISTAGES, state_floats=istate_floats, where="C08I:sweep")
         return
     if str(case.get("stream", "")).startswith("inter"):
         iqueue = []
         if case.get("iclass"):
-            cand = [sp for sp in inter_class_specs(case["case_seed"]) if sp["iclass"] == case["iclass"] and sp["D"] == case["D"] and sp.get("n0") == case.get("n0")]
+            cand = [sp for sp in inter_class_specs(case["case_seed"]) if sp["iclass"] == case["iclass"] and sp["D"] == case["D"] and sp.get("n0") == case.get("n0")
+                    and sp["perturb"] == case.get("perturb", sp["perturb"])]
             ispec = cand[0]
         else:
             ispec = igen_spec(case["case_seed"], case.get("max_sweeps", 3), selfpair=case["stream"] == "inter-selfpair")
@@ -1701,7 +2104,10 @@ def replay(ctx, case, res):
     else:
         spec = gen_spec(case["case_seed"], case["stream"], case.get("max_sweeps", 3))
     queue = []
-    run_case(spec, res, queue)
+    if case.get("verbose_compare"):
+        run_case_v(spec, res, queue, True)
+    else:
+        run_case(dict(spec, verbose=True) if case.get("verbose") else spec, res, queue)
     if ctx.driver is not None and queue:
         outs = ctx.driver.ask([q[0] for q in queue])
         for q, out in zip(queue, outs):
